@@ -117,13 +117,13 @@ pub fn ops_metadata() -> Vec<Op> {
 /// content alphabet over two files
 pub fn ops_content() -> Vec<Op> {
     let mut ops = vec![];
-    let datas: Vec<Vec<u8>> = vec![b"".to_vec(), "é".as_bytes().to_vec(), b"\n".to_vec(), vec![0xFF], b"a\r\nb".to_vec()];
+    let datas: Vec<Vec<u8>> = vec![b"".to_vec(), "é".as_bytes().to_vec(), b"\n".to_vec(), vec![0xFF]];
     for p in ["/a", "/b"] {
         for d in &datas {
             ops.push(Op::WriteAll(s(p), d.clone()));
             ops.push(Op::AppendAll(s(p), d.clone()));
         }
-        ops.push(Op::WriteLines(s(p), vec![s("a"), s("é")]));
+        ops.push(Op::WriteLines(s(p), vec![s("a")]));
         ops.push(Op::AppendLines(s(p), vec![s("b")]));
         ops.push(Op::AppendLine(s(p), s("c")));
         ops.push(Op::WriteHandle(s(p), vec![b"h".to_vec(), b"i".to_vec()], vec![true, false]));
@@ -215,16 +215,13 @@ pub fn ops_hostile() -> Vec<Op> {
         Op::SetCwd(s("")),
         Op::SetCwd(s("../..")),
         // relative calls (meaningful after the cwd itself was removed)
-        Op::Mkfile(s("x")),
-        Op::MkdirP(s("x/y")),
+        Op::Mkfile(s("b")),
+        Op::MkdirP(s("b/a")),
         Op::Remove(s(".")),
         Op::RemoveAll(s(".")),
         Op::MoveP(s("."), s("/b")),
-        Op::Symlink(s("l"), s(".")),
-        Op::Chmod(s("/"), 0o700),
-        Op::Chown(s("/"), 1, 2),
+        Op::Symlink(s("b"), s(".")),
         Op::Chmod(s("/b"), 0o600),
-        Op::Chown(s("/b/a"), 3, 4),
     ];
     ops.push(Op::CopyB(s("/b"), s("/a/b"), CopyMode::None, true));
     ops.push(Op::CopyB(s("/a"), s("/b"), CopyMode::All(0o700), true));
@@ -243,7 +240,7 @@ pub fn config_by_name(name: &str) -> Option<SpaceCfg> {
         "Aplain" => base_cfg(name, ops_structure(false), n, 2),
         "B" => {
             let mut c = base_cfg(name, ops_content(), n, 1);
-            c.max_content = 5;
+            c.max_content = 3;
             c
         },
         "C" => base_cfg(name, ops_metadata(), n, 2),
@@ -251,6 +248,12 @@ pub fn config_by_name(name: &str) -> Option<SpaceCfg> {
         "H" => {
             let mut ops = ops_structure(true);
             ops.extend(ops_hostile());
+            base_cfg(name, ops, n, 2)
+        },
+        "R" => {
+            // root metadata and owner changes combined with structure (kept small: they multiply states)
+            let mut ops = ops_structure(false);
+            ops.extend([Op::Chmod(s("/"), 0o700), Op::Chown(s("/"), 1, 2), Op::Chown(s("/b/a"), 3, 4), Op::Chmod(s("/a"), 0o500)]);
             base_cfg(name, ops, n, 2)
         },
         _ => return None,
@@ -333,7 +336,7 @@ impl Observer for C01Obs {
         };
         // model-free rule: a failed single-target call leaves the complete state untouched
         if !t.out.ok && single_target(t.op) && t.post_dump != t.pre_dump {
-            let sig = format!("C01 failed {} [{}] changed-state", t.op.name(), arg_class(pre, t.op));
+            let sig = format!("C01 {} failed-but-changed-state [{}]", t.op.name(), arg_class(pre, t.op));
             vio(
                 &sig,
                 || format!("after [{}] the call {} failed with {} but the state changed (model-free rule)", t.space.history_text(t.pre_idx), t.op.render(), t.out.brief()),
@@ -344,14 +347,14 @@ impl Observer for C01Obs {
         if let Pred::Skip(_) = pred {
             self.skipped.fetch_add(1, Ordering::Relaxed);
             if t.out.panicked() {
-                let sig = format!("C01 {} [{}] panic", t.op.name(), arg_class(pre, t.op));
+                let sig = format!("C01 {} panic [{}]", t.op.name(), arg_class(pre, t.op));
                 vio(&sig, || format!("after [{}] the call {} panicked: {}", t.space.history_text(t.pre_idx), t.op.render(), t.out.msg), || t.space.case_json(t.pre_idx, Some(t.op_idx)));
             }
             return;
         }
         self.compared.fetch_add(1, Ordering::Relaxed);
         if let Some((class, detail)) = compare(&pred, t.out, pre, t.post_abs) {
-            let sig = format!("C01 {} [{}] {}", t.op.name(), arg_class(pre, t.op), class);
+            let sig = format!("C01 {} {} [{}]", t.op.name(), class, arg_class(pre, t.op));
             vio(
                 &sig,
                 || format!("after [{}] (tree: {}; cwd {}) the call {} returned {}: {}", t.space.history_text(t.pre_idx), pre.tree.render(), pre.cwd, t.op.render(), t.out.brief(), detail),
@@ -379,7 +382,7 @@ impl Observer for C01Obs {
                 self.queries_compared.fetch_add(1, Ordering::Relaxed);
             }
             if let Some((class, detail)) = compare_query(&pred, &out) {
-                let sig = format!("C01 query {} [{}] {}", q.name(), arg_class(st, q), class);
+                let sig = format!("C01 query {} {} [{}]", q.name(), class, arg_class(st, q));
                 vio(
                     &sig,
                     || format!("in the state after [{}] (tree: {}; cwd {}) {}: {}", sv.space.history_text(sv.idx), st.tree.render(), st.cwd, q.render(), detail),
@@ -399,7 +402,7 @@ pub fn stats_json(name: &str, st: &SpaceStats) -> J {
         ("config", J::s(name)),
         ("states", J::i(st.states)),
         ("expanded_states", J::i(st.expanded)),
-        ("cut_states_checked_not_expanded", J::i(st.cut_states)),
+        ("successors_beyond_bound_checked_not_expanded", J::i(st.cut_states)),
         ("transitions", J::i(st.transitions)),
         ("failed_calls", J::i(st.failed_calls)),
         ("malformed_successors_not_expanded", J::i(st.malformed_successors)),
